@@ -60,8 +60,9 @@ class Nist256p1Point(IPoint):
                 BytesUtils.ToInteger(point_bytes[EcdsaKeysConst.POINT_COORD_BYTE_LEN:])
             )
         # The raw and uncompressed encodings are not checked by the library: the point shall lie on the curve
-        if not curve_256.contains_point(point_obj.x(), point_obj.y()):
-            raise ValueError("Invalid point key bytes (point not on the curve)")
+        if (point_obj.x() >= curve_256.p() or point_obj.y() >= curve_256.p()
+                or not curve_256.contains_point(point_obj.x(), point_obj.y())):
+            raise ValueError("Invalid point key bytes (point not on the curve or coordinates not reduced)")
         return cls(point_obj)
 
     @classmethod
